@@ -106,17 +106,34 @@ def body_row(g, ev, age, esaa, coeffs, F, kind, kmin, kmax):
     return body
 
 
+def body_prime(g, ev, age, esaa, mark):
+    """an earlier call for the same event with other options (concrete mark): only the state it leaves matters"""
+    def body(R):
+        try:
+            sys.modules['athlib.athlon_score'].score(g, ev, mark, age, esaa=esaa)
+        except Exception:
+            pass
+        return {'inputs': {}}
+    return body
+
+
 def worker(job):
     t0 = time.time()
     res = JobResult()
     if job[0] == 'row':
-        _, g, ev, age, esaa, coeffs, F, kind, kmin, kmax = job
+        _, g, ev, age, esaa, coeffs, F, kind, kmin, kmax = job[:10]
+        prime = job[10] if len(job) > 10 else None
         label = 'athlon_score(%r, %r, k/100, age=%r%s) k in %d..%d' % (g, ev, age, ', esaa=True' if esaa else '', kmin, kmax)
+        if prime:
+            label += ' after athlon_score(%r, %r, %r, age=%r, esaa=%r)' % (g, ev, prime[2], prime[0], prime[1])
         script = SCRIPT.replace('GEVA', repr((g, ev, age, esaa))).replace('COEFFS', repr((coeffs[0], coeffs[1], coeffs[2], kind, F))).replace('LABEL', repr(label))
         scripts = {'exact': script, 'raises': script, 'unexpected-exception': 'import sys\nsys.exit(0)\n'}
         R = hc.Runner(res, plain(), 'athlib.athlon_score', scripts, max_paths=64, deadline=time.time() + 3000, float_mode='F', int_bv=True, check_feasibility=False)
         R.inline = False
         R.fp_timeout_ms = 1200000
+        if prime:
+            R.prime_body = body_prime(g, ev, prime[0], prime[1], prime[2])
+            R.prime_script = 'import athlib\nathlib.athlon_score(%r, %r, %r, %r, esaa=%r)\n' % (g, ev, prime[2], prime[0], prime[1])
         try:
             R.explore(body_row(g, ev, age, esaa, coeffs, F, kind, kmin, kmax), label)
         except E.Budget as e:
@@ -305,6 +322,7 @@ def build_jobs(athlib, ref, quick, rng):
         zc = int(100 * (j[5][1] / 100.0 if j[7] == 'jump' else j[5][1]))     # the zero-point mark in centi-units
         for (a, b) in chunks(0, j[8]):
             cj.append(j[:8] + (a, b) + (a <= zc <= b,))
+    full_cj = list(cj)
     if quick:
         # quick tier: a seeded sample of the (row, factor, chunk) queries; thorough runs them all
         rng.shuffle(cj)
@@ -314,6 +332,15 @@ def build_jobs(athlib, ref, quick, rng):
         keep = list(dict((id(j), j) for j in keep).values())
         cj = keep
     jobs = [j[:-1] for j in cj]
+    # history clause: the zero-point chunk of a row again, after one earlier call for the same event with the other options (a masters
+    # age, the ESAA flag switched) - the coefficient rows and the age grader are shared objects, the answer must not depend on them
+    central_all = [j[:-1] for j in full_cj if j[-1] and j[3] is None]
+    hist_rows = [j for j in central_all if j[2] == '800'] + ([j for j in central_all if j[2] != '800'][:2] if quick else [j for j in central_all if j[2] != '800'])
+    for j in hist_rows:
+        mark = round((j[8] + j[9]) / 200.0, 2)
+        jobs.append(j + ((None, not j[4], mark),))
+        if not quick or j[2] == '800':
+            jobs.append(j + ((45, False, mark),))
     evs = sorted({o['event_code'] for o in rows} | {'80H', 'SH', 'LH'})
     for g in ('M', 'F'):
         for ev in (evs if not quick else evs[::3]):
@@ -331,7 +358,7 @@ def run(chk, only=None):
     live = sys.modules['athlib.athlon_score']._scoring_table
     jobs = build_jobs(athlib, ref, quick, random.Random(chk.seed))
     if only:
-        jobs = [j for j in jobs if j[0] == only]
+        jobs = [j for j in jobs if j[0] == only or (only == 'history' and j[0] == 'row' and len(j) > 10)]
     # coefficient table equals the frozen reference (what the oracle is built from)
     chk.obligations += 1
     if [dict(o) for o in live] == [dict(o) for o in ref['athlon']]:
